@@ -289,13 +289,17 @@ class C19(core.Check):
             # characters outside the code page, two-character strings, character literals
             c_ = CANARY_EXPR.format(tag="syn")
             sep = rw.choice(["\r", "\x0b", "\x0c", "\x1c", "\x1d", "\x1e", "\x85", "\u2028", "\u2029"])
-            kind_ = rw.choice(["comment", "comment", "cnum", "cnum", "cstr", "twochar", "char"])
+            kind_ = rw.choice(["comment", "comment", "cnum", "cnum", "cstr", "twochar", "char", "fname", "fname"])
             if kind_ == "comment":
                 node = ["t", f"# note{sep}{c_}\n"]
             elif kind_ == "cnum":
                 node = ["t", "»" + rw.choice([f"{c_}\t", f"[{c_},7][1]é", f"{c_}", f"1+{c_}\u00e9"]) + "»"]
             elif kind_ == "cstr":
                 node = ["t", "«" + rw.choice([f"{c_}\t", f"'+str({c_})+'é", f"{c_}"]) + "«"]
+            elif kind_ == "fname":
+                # names of functions / parameters are pasted into the generated Python after being sanitised
+                node = ["t", rw.choice([f"@`x if 0 else [];{c_};dict`;", f"@x if 0 else [];{c_};dict;", f"@f:`a=0;{c_}#`|1; @f;",
+                                        f"@`a\n{c_}\n`;", f"@f;{c_}#;"])]
             elif kind_ == "twochar":
                 node = ["t", rw.choice(['‛");', "‛\\\"", "‛'\""]) + f" `{c_}`"]
             else:
@@ -365,11 +369,15 @@ class C19(core.Check):
         if weird:
             uses_eval = True  # eval() and literal_eval() legitimately disagree on these: no online == offline clause
         case = dict(nodes=nodes, inputs=inputs, flags=flags, fault=fault, layer=layer, taint=taint, uses_eval=uses_eval)
+        if rw.random() < 0.25:
+            # an earlier, harmless OFFLINE execution in the same process (module-level caches must not carry its mode over)
+            case["prelude"] = rw.choice(["12 †", "⟨1|2⟩ †", "`1` E", "3 Ė", "1 2 J", "`a` S ,", "3ɾ ,", "λ›; †", "`7` † _", "2 3 ⁽+ R ,",
+                                         "`1+1` E ,", "5 ∆c"])
         if layer == "flask":
             case["speed"] = rf.choice([200, 1000, 5000, 100000])  # child steps per simulated second
             case["user_kill_frac"] = rf.choice([None, None, round(rf.random(), 3)])
             # multi-request histories of one browser tab / other tabs loading the page while this one runs
-            case["scenario"] = rf.choice(["single", "single", "late_kill_then_slow", "page_loads", "two_runs"])
+            case["scenario"] = rf.choice(["single", "single", "late_kill_then_slow", "page_loads", "two_runs", "overlap", "overlap"])
             case["page_loads"] = rf.choice([3, 50, 3000])
         return case
 
@@ -460,9 +468,14 @@ class C19(core.Check):
         return None
 
     def run(self, case):
+        if case.get("prelude"):
+            self.exec_once(case["prelude"], "", [], False)
         if case.get("layer") == "flask":
             return self.run_flask(case)
         return self.run_direct(case)
+
+    def self_contained(self, case):
+        return bool(case.get("prelude"))
 
     def hist(self, case, text):
         return core.digest([text, case["flags"], case["inputs"], case["fault"], case.get("layer")])
@@ -629,6 +642,10 @@ class C19(core.Check):
             yield dict(case, inputs=inp[:i] + inp[i + 1:])
         if case["fault"]["kind"] == "kill_sweep":
             yield dict(case, fault=dict(kind="kill", frac=0.5))
+        if case.get("prelude"):
+            c = dict(case)
+            del c["prelude"]
+            yield c
 
     def same_failure(self, a, b):
         return a["sig"] == b["sig"]
